@@ -195,6 +195,7 @@ type Engine struct {
 	lemmasUsed    map[string]bool
 	leafClass     []leafClass
 	curProp       string
+	pruneCalls    int
 }
 
 type leafClass struct {
